@@ -30,6 +30,7 @@ class Checker:
         self.configs = []
         self.not_decided = ""
         self.selfcheck = []
+        self.broken_notes = []
 
     def rule(self, rid, text):
         self.rules[rid] = text
@@ -54,8 +55,10 @@ class Checker:
     def expect(self, rule, found, minimum, what):
         """Instance-count floor: a rule that matches fewer constructs than were confirmed by hand is broken."""
         if found < minimum:
-            raise AnalysisBroken("%s rule %s: found %d %s, at least %d were confirmed by reading; the rule no longer "
-                                 "sees the code it is about" % (self.prop, rule, found, what, minimum))
+            # deferred: a definite violation found in the same run takes precedence (the missing instances are usually
+            # the very thing the violation is about); without one the run ends as "analysis broken" (exit 2)
+            self.broken_notes.append("%s rule %s: found %d %s, at least %d were confirmed by reading; the rule no longer "
+                                     "sees the code it is about" % (self.prop, rule, found, what, minimum))
 
     # ---------------------------------------------------------------------------------------------
     def finish(self):
@@ -139,9 +142,15 @@ class Checker:
         ev["coverage"].update(self.meta)
         if self.selfcheck:
             ev["coverage"]["self_validation"] = self.selfcheck
+        if self.broken_notes:
+            ev["coverage"]["analysis_broken_notes"] = self.broken_notes
+        if self.broken_notes and not n_new:
+            raise AnalysisBroken(" | ".join(self.broken_notes))
         json.dump(ev, open(os.path.join(EVID, self.prop + ".json"), "w"), indent=1)
         for l in lines:
             print(l)
+        for b in self.broken_notes:
+            print("note (instance-count floor not met): " + b)
         print("%s [%s]: %d obligations: %d hold, %d inconclusive, %d violated (%d listed as known findings)" %
               (self.prop, self.tier, len(self.obs), n_h, n_i, n_v, n_v - n_new))
         return 1 if n_new else 0
